@@ -1245,7 +1245,7 @@ func checkMembershipEquality(w *World, r *Report, evalCases map[string]*ast.Case
 				}
 				instrsOf(f, func(in ssa.Instruction) {
 					if c, ok := in.(ssa.CallInstruction); ok {
-						if g := c.Common().StaticCallee(); g != nil && g.Pkg != nil && g.Pkg.Pkg.Path() == twigPath {
+						if g := c.Common().StaticCallee(); g != nil && isTwigFn(g) {
 							walk(g, d+1)
 						}
 					}
